@@ -211,9 +211,144 @@ def ints_of(x, acc):
             ints_of(v, acc)
 
 
+def _spec_value(spec, name, model):
+    """Concrete python / numpy value of type spec `spec` for the model paths rooted at `name`."""
+    import copy
+    import types
+
+    import numpy as np
+    if spec is None:
+        return None
+    if isinstance(spec, str):
+        if spec in ('int', 'nat', 'pos'):
+            return int(val(model.get(name, 1 if spec == 'pos' else 0)))
+        if spec in ('real', 'posreal'):
+            return float(val(model.get(name, 1.0 if spec == 'posreal' else 0.0)))
+        if spec == 'bool':
+            return bool(val(model.get(name, False)))
+        if spec == 'slice':
+            return slice(int(val(model.get(name + '.start', 0))), int(val(model.get(name + '.stop', 0))))
+        if spec == 'slice2':
+            return (_spec_value('slice', name + '[0]', model), _spec_value('slice', name + '[1]', model))
+        raise ValueError(f'no concrete value for spec {spec!r}')
+    tag = spec[0]
+    if tag == 'const':
+        return copy.deepcopy(spec[1])
+    if tag == 'tuple':
+        return tuple(_spec_value(t, f'{name}[{i}]', model) for i, t in enumerate(spec[1:]))
+    if tag == 'record':
+        return types.SimpleNamespace(**{f: _spec_value(t, f'{name}.{f}', model)
+                                        for f, t in spec[2].items()})
+    if tag == 'dict':
+        return {k: _spec_value(t, f'{name}[{k!r}]', model) for k, t in spec[1].items()}
+    if tag == 'opt':
+        if val(model.get(name + '.isnone', False)):
+            return None
+        return _spec_value(spec[1], name, model)
+    if tag == 'arr':
+        nd, kind = spec[1], spec[2]
+        shape = tuple(int(val(model.get(f'{name}.shape[{d}]', 1))) for d in range(nd))
+        dt = {'int': np.int64, 'real': float, 'bool': bool}[kind]
+        a = np.zeros(shape, dtype=dt)
+        raw = model.get(name + '.arr')
+        if raw is not None:
+            src = np.array([[val(x) for x in row] for row in raw] if nd == 2 else
+                           [val(x) for x in raw], dtype=object)
+            if src.shape == shape:
+                a = src.astype(dt)
+        return a
+    if tag == 'seq' and spec[1] in ('int', 'real', 'bool'):
+        n = int(val(model.get(name + '.len', 0)))
+        raw = [val(x) for x in model.get(name + '.seq', [])][:n]
+        raw += [0] * (n - len(raw))
+        return np.array(raw, dtype={'int': np.int64, 'real': float, 'bool': bool}[spec[1]])
+    raise ValueError(f'no concrete value for spec {spec!r}')
+
+
+def _replay_block(rec, fullmodel):
+    """Execute the statements of a block contract, as they stand in the real file, on the inputs of
+    the counter-model (in the namespace of the real module), then evaluate the contract."""
+    import copy
+    import textwrap
+
+    import numpy as np
+    model = {k: v for k, v in fullmodel.items() if not k.startswith('_')}
+    rp = rec['replay']
+    mod = importlib.import_module(rp['module'])
+    rename = rp.get('rename') or {}
+    args = {}
+    for name, spec in rp['params'].items():
+        args[rename.get(name, name)] = _spec_value(spec, name, model)
+    olds = {'old_' + k: copy.deepcopy(v) for k, v in args.items()}
+    body = textwrap.indent(rp['source'], ' ' * 8)
+    src = ('def __vf_block(' + ', '.join(args) + '):\n'
+           "    __vf_leave = 'continue'\n"
+           '    for __vf_once in (0,):\n' + body + '\n'
+           "        __vf_leave = 'fall'\n"
+           '    return locals()\n')
+    ns = dict(vars(mod))
+    exec(compile(src, '<block of ' + rp['qualname'] + '>', 'exec'), ns)
+    observed = {}
+    try:
+        import warnings
+        with warnings.catch_warnings():
+            warnings.simplefilter('ignore')
+            loc = ns['__vf_block'](**args)
+    except Exception as e:  # noqa: BLE001
+        return 'error', f'the block raised {type(e).__name__}: {e} on the counter-model', observed
+    if not isinstance(loc, dict):
+        return 'error', 'the block returned from the function (outside what the contract covers)', observed
+    cands = set([0, 1, -1])
+    ints_of(model, cands)
+    scope = dict(vars(mod))
+    scope.update(make_helpers(cands))
+    scope.update(math_helpers())
+    scope.update({k: v for k, v in loc.items() if not k.startswith('__vf_')})
+    scope.update(olds)
+    for k, v in args.items():
+        scope[k + '_input'] = v              # the caller's object itself (sees in-place writes)
+    if rp.get('value_name'):
+        scope['value'] = loc.get(rp['value_name'])      # statement contract: the assigned value
+    scope['leaves_by_continue'] = loc.get('__vf_leave') == 'continue'
+    scope['np'] = np
+    scope['isfinite_at'] = lambda a, *idx: bool(np.isfinite(a[tuple(idx)]))
+    scope['shape_of'] = lambda a: tuple(a.shape)
+    # contract text uses the recorded names
+    for k, actual in rename.items():
+        for pre, suf in (('', ''), ('old_', ''), ('', '_input')):
+            if pre + actual + suf in scope:
+                scope[pre + k + suf] = scope[pre + actual + suf]
+    for r in rp.get('requires', []):
+        try:
+            pre_scope = dict(scope)
+            pre_scope.update({k[4:]: v for k, v in olds.items()})
+            if not eval(compile_cl(r), pre_scope):
+                return 'spurious', f'model violates requires {r!r}', observed
+        except Exception as e:  # noqa: BLE001
+            return 'error', f'requires {r!r}: {type(e).__name__}: {e}', observed
+    failed, errors = [], []
+    for label, text in rp.get('ensures', []):
+        try:
+            if not eval(compile_cl(text), scope):
+                failed.append(label)
+        except Exception as e:  # noqa: BLE001
+            errors.append(f'{label}: {type(e).__name__}: {e}')
+    observed['inputs'] = {k: (v.tolist() if hasattr(v, 'tolist') else repr(v)) for k, v in olds.items()}
+    observed['after'] = {k: (v.tolist() if hasattr(v, 'tolist') else repr(v))
+                         for k, v in loc.items() if not k.startswith('__vf_') and
+                         isinstance(v, (int, float, bool, np.ndarray, list, tuple))}
+    if failed:
+        return 'confirmed', 'the block of the real function violates: ' + ', '.join(failed), observed
+    if errors:
+        return 'error', 'contract clauses that could not be evaluated on the real run: ' + '; '.join(errors), observed
+    return 'spurious', 'the block satisfies the contract on this input', observed
+
+
 def replay_pyvc(rec):
     """Replay the counter-model; when it does not reproduce, try the alternative models the
     verifier recorded (the first confirmed one is reported)."""
+    if (rec.get('replay') or {}).get('kind') == 'block':
+        return _replay_block(rec, rec.get('model') or {})
     first = _replay_one(rec, rec.get('model') or {})
     if first[0] == 'confirmed':
         return first
